@@ -414,13 +414,17 @@ pub fn exec_tamper(t: &[&str], line: &str, rec: &mut Recorder) {
         && LAST.with(|last| {
             last.borrow().as_ref().is_some_and(|z| {
                 let kq = super::key(&q);
+                // the cut closest to the apex decides (everything below an insecure cut is insecure)
                 z.data
                     .iter()
                     .filter(|(rel, ts)| {
                         let k = super::key(&rel_name(rel, &z.apex));
                         ts.contains(&2) && kq.len() >= k.len() && kq[..k.len()] == k[..]
                     })
-                    .all(|(_, ts)| !ts.contains(&43))
+                    .min_by_key(|(rel, _)| rel.len())
+                    .is_some_and(|(rel, _)| {
+                        !z.data.iter().any(|(r2, t2)| r2 == rel && t2.contains(&43))
+                    })
             })
         });
     let mut bad: Option<String> = None;
@@ -443,7 +447,8 @@ pub fn exec_tamper(t: &[&str], line: &str, rec: &mut Recorder) {
             bad = Some("accepted although the response carries both NSEC and NSEC3 records".into());
         }
     }
-    if *m == "as-error" && verdict.is_ok() != base_ok {
+    // (referrals are left out: delivered as an error they lose the sections that make them one)
+    if *m == "as-error" && !cut && verdict.is_ok() != base_ok {
         bad = Some(format!(
             "the response delivered as NoRecordsFound error is {} but {} as a message",
             if verdict.is_ok() { "accepted" } else { "rejected" },
